@@ -63,6 +63,9 @@ func register(d *propDef) {
 			c := d.caseAt(w, idx)
 			res := &core.CaseResult{Sig: c.signature()}
 			reps := repsFor(d, w.Tier)
+			if c.Reps > reps {
+				reps = c.Reps
+			}
 			outs := map[string]bool{}
 			var firstObs *Obs
 			for k := 0; k < reps; k++ {
@@ -182,6 +185,10 @@ func registerC01() {
 	nB := prod(radB...)
 	// family C: target vanished / job changed / single holder next to unhealthy shards
 	nC := 24
+	// family D: scale-down of a tail shard whose targets fit the front shards for SOME first-fit orders only
+	// (the feasibility check and the real packing iterate the same map in independent orders)
+	radD := []int{3, 3, 4, 2}
+	nD := prod(radD...)
 	direct := func(idx int) *Case {
 		switch {
 		case idx < nA:
@@ -243,6 +250,28 @@ func registerC01() {
 			}
 			c.Cycles = oneCycle(shards...)
 			return c
+		case idx >= nA+nB+nC:
+			d := digits(idx-nA-nB-nC, radD...)
+			loads := []int64{92, 95, 90}
+			tails := [][]int64{{7, 4}, {8, 3}, {6, 5, 2}, {9, 4}}[d[2]]
+			c := &Case{Name: "C01-D", Opt: Opt{MaxHead: 0, MaxProc: 100, Min: 0, Max: 99, IdleMin: 30}, Explore: map[uint64]*TStat{}, Reps: 40}
+			if d[3] == 1 {
+				c.Opt.MaxHead, c.Opt.MaxProc = 100, 1000
+			}
+			a := okShard().with(1, up(loads[d[0]], loads[d[0]], 5))
+			b := okShard().with(2, up(loads[d[1]], loads[d[1]], 5))
+			c.Active = []ActiveT{{1, "job"}, {2, "job"}}
+			c.Explore[1] = &TStat{Health: "up", Series: loads[d[0]], Total: loads[d[0]]}
+			c.Explore[2] = &TStat{Health: "up", Series: loads[d[1]], Total: loads[d[1]]}
+			tail := okShard()
+			for i, sz := range tails {
+				h := uint64(10 + i)
+				tail = tail.with(h, up(sz, sz, 5))
+				c.Active = append(c.Active, ActiveT{h, "job"})
+				c.Explore[h] = &TStat{Health: "up", Series: sz, Total: sz}
+			}
+			c.Cycles = oneCycle(a, b, tail)
+			return c
 		default:
 			k := idx - nA - nB
 			c := &Case{Name: "C01-C", Opt: Opt{MaxHead: 100, MaxProc: 100, Min: 0, Max: 99, IdleMin: 30 * (k % 2)}, Active: []ActiveT{{1, "job"}, {2, "job2"}},
@@ -275,9 +304,9 @@ func registerC01() {
 	register(&propDef{
 		id: "C01",
 		rule: "case = coordinator options + discovered set + explorer table + per-shard scripted reports/health for one cycle, executed R times (map order, random choice) through the real Coordinator.Run; " +
-			"directed families (two and three copies of one target in every state/scrape-count/load-order combination, next to out-of-sync holders; vanished targets) followed by seed-determined random cases; " +
+			"directed families (two and three copies of one target in every state/scrape-count/load-order combination, next to out-of-sync holders; vanished targets; a tail shard whose targets fit the front shards for some first-fit orders only, 40 repetitions each) followed by seed-determined random cases; " +
 			"non-trivial = at least 2 shards and a discovered target reported by an in-sync shard; distinct = hash of the case with sizes bucketed",
-		judge: judgeC01, nDirect: nA + nB + nC, direct: direct,
+		judge: judgeC01, nDirect: nA + nB + nC + nD, direct: direct,
 		nRandom: map[string]int{"quick": 20000, "thorough": 300000},
 		nontriv: func(v *view) bool {
 			if v.n < 2 {
@@ -552,7 +581,52 @@ func registerC07() {
 	minmax := [][2]int32{{0, 99}, {2, 3}, {3, 3}, {0, 1}, {5, 9}}
 	rad := []int{nTuples, 4, 5, 2}
 	nA := prod(rad...)
+	// family B: an overloaded shard whose excess fits nowhere (space is needed) next to a second overloaded
+	// shard that relief can fully relieve, and an expired idle tail without room (stale head series)
+	radB := []int{2, 3, 2, 2, 2}
+	nB := prod(radB...)
+	directA := func(idx int) *Case { return nil }
 	direct := func(idx int) *Case {
+		if idx >= nA {
+			d := digits(idx-nA, radB...)
+			big := []int64{60, 95}[d[0]]
+			c := &Case{Name: "C07-B", Opt: Opt{MaxHead: 100, MaxProc: 10000, Min: 0, Max: 99, IdleMin: 30}, Explore: map[uint64]*TStat{}, Reps: 6}
+			add := func(s ShardScript, h uint64, sz int64) ShardScript {
+				c.Active = append(c.Active, ActiveT{h, "job"})
+				c.Explore[h] = &TStat{Health: "up", Series: sz, Total: sz}
+				return s.with(h, up(sz, sz, 9))
+			}
+			a := add(add(okShard(), 1, big), 2, big)           // needs space: nothing of it fits anywhere
+			b := add(add(add(okShard(), 3, 100), 4, 10), 5, 5) // over the threshold, relieved by moving 5 (and 10) away
+			cc := add(okShard(), 6, 100-big+5)                 // room for small targets only
+			if d[3] == 1 {
+				cc = add(okShard(), 6, 99) // no room at all: b needs space as well
+			}
+			tail := okShard().idle("expired")
+			tail.HeadExtra = 100 - big + 5 // stale head series: no room for a big one
+			var shards []ShardScript
+			switch d[1] {
+			case 0:
+				shards = []ShardScript{a, b, cc}
+			case 1:
+				shards = []ShardScript{b, a, cc}
+			case 2:
+				shards = []ShardScript{cc, a, b}
+			}
+			if d[4] == 1 {
+				shards = []ShardScript{shards[0], shards[2], shards[1]}
+			}
+			if d[2] == 1 {
+				shards = append(shards, tail, tail)
+			} else {
+				shards = append(shards, tail)
+			}
+			c.Cycles = oneCycle(shards...)
+			return c
+		}
+		return directA(idx)
+	}
+	directA = func(idx int) *Case {
 		d := digits(idx, rad...)
 		t := d[0]
 		ln := 1
@@ -592,14 +666,86 @@ func registerC07() {
 	}
 	register(&propDef{
 		id: "C07",
-		rule: "same engine; directed list enumerates ALL tuples of shard kinds {loaded, idle-fresh, idle-expired, unready, out-of-sync, unreachable} over 1-4 positions x {no new target, small, fits only an empty shard, fits nowhere} x 5 (min,max) settings x max-idle-time {0, 30 min}; then random 1-5 shard cases; every ChangeScale argument of the cycle is judged; " +
+		rule: "same engine; directed list enumerates ALL tuples of shard kinds {loaded, idle-fresh, idle-expired, unready, out-of-sync, unreachable} over 1-4 positions x {no new target, small, fits only an empty shard, fits nowhere} x 5 (min,max) settings x max-idle-time {0, 30 min}; then random 1-5 shard cases; every ChangeScale argument of the cycle is judged, also against a sufficient condition for 'relief needs space' (a shard over the head threshold none of whose targets fits any other shard by the loads reported in the cycle: no request below the current count), with a directed family of two overloaded shards - one relievable, one not - next to an expired idle tail without room; " +
+			"plus closed-loop cases (E2: real sidecars, simulated StatefulSet) with max-idle-time 0 / 1000 h / 150-250 ms of real time: every shard the coordinator removes is judged against the harness clock - it was seen holding targets, or was created, at a known instant, so it can have been idle for at most the span since then (one-sided: load only lengthens the span); a third of them a directed sequence in which an idle tail shard receives a target in an update whose Prometheus reload fails / is dropped / loses its answer, more than max-idle-time passes and the target disappears again; " +
 			"non-trivial = at least one scale request observed in a case with 2+ shards or an idle shard; distinct = hash of the case with sizes bucketed",
-		judge: judgeC07, nDirect: nA, direct: direct,
+		judge: judgeC07, nDirect: nA + nB, direct: direct,
 		nRandom: map[string]int{"quick": 10000, "thorough": 200000},
 		reps:    map[string]int{"quick": 2, "thorough": 6},
 		nontriv: func(v *view) bool { return len(v.scales) > 0 && v.n >= 2 },
 		exhaust: true,
+		nExtra:  map[string]int{"quick": 96, "thorough": 1600},
+		extra:   c07ClosedLoop,
 	})
+}
+
+// c07ClosedLoop: scale-down on real sidecars. Whatever the sidecars report, a shard the coordinator
+// removes must have been idle for longer than max-idle-time by the HARNESS' clock (it was seen holding
+// targets, or created, at a known instant; load only lengthens the measured span, so the rule cannot
+// fire on correct code). Worlds with max-idle-time 0 or 1000 h must never shrink at all.
+// Every third case is a directed sequence: a tail shard goes idle, receives a target before the idle
+// time expires - in an update whose Prometheus reload fails -, more than max-idle-time passes, the
+// target disappears again: the shard has then been idle for milliseconds.
+func c07ClosedLoop(w *core.WorkerCtx, k int) *core.CaseResult {
+	r := core.NewRng(w.Seed, 0xC07E2, uint64(k))
+	var sc e2.Scenario
+	kind := "random"
+	if k%3 == 0 {
+		kind = "directed"
+		t := func(id, kept int) e2.TargetSpec { return e2.TargetSpec{ID: id, Kept: kept, Explorer: "up"} }
+		big := r.PickI(70, 80, 90)
+		spec := e2.Spec{MaxHead: 100, MaxProc: 150, Min: int32(r.PickI(0, 1)), Max: 4, Idle: "250ms", InitShards: 2, KeepPVC: r.Intn(2) == 0,
+			Targets: []e2.TargetSpec{t(0, big), t(1, 60)},
+			Initial: []e2.Placement{{Shard: 0, ID: 0}, {Shard: 1, ID: 1}}}
+		fault := r.PickS("failReload", "failReload", "dropPost", "loseAck", "none")
+		sc = e2.Scenario{Spec: spec, Perturbed: 9}
+		sc.Events = append(sc.Events, e2.Event{AtCycle: 1, Kind: "remove", Target: e2.TargetSpec{ID: 1}})
+		sc.Events = append(sc.Events, e2.Event{AtCycle: 3, Kind: "add", Target: t(2, r.PickI(40, 60))})
+		if fault != "none" {
+			sc.Events = append(sc.Events, e2.Event{AtCycle: 3, Kind: fault, Shard: 1, Cycles: 1})
+		}
+		sc.Events = append(sc.Events, e2.Event{AtCycle: 5, Kind: "sleep", Cycles: 320})
+		sc.Events = append(sc.Events, e2.Event{AtCycle: 6, Kind: "remove", Target: e2.TargetSpec{ID: 2}})
+		for c := 0; c < sc.Perturbed; c++ {
+			sc.ScrapePlan = append(sc.ScrapePlan, []int{3, 3, 3, 3})
+		}
+	} else {
+		spec := e2.GenSpec(r)
+		e2.SanitizeInitial(&spec)
+		spec.Idle = r.PickS("0", "1000h", "150ms", "150ms")
+		sc = e2.GenWorkload(r, spec)
+		if k%3 == 1 {
+			kinds := []string{"restart", "dropPost", "loseAck", "unready", "failStatus", "failReload", "failRuntime"}
+			sc.Events = append(sc.Events, e2.Event{AtCycle: r.Intn(sc.Perturbed), Kind: kinds[r.Intn(len(kinds))], Shard: r.Intn(3), Cycles: 1})
+		}
+		if spec.Idle == "150ms" {
+			sc.Events = append(sc.Events, e2.Event{AtCycle: sc.Perturbed - 1, Kind: "sleep", Cycles: 170})
+		}
+	}
+	sc.NoConvergence = true // convergence is C03's business; 12 quiet cycles are enough here
+	root := e2.ScratchRoot(w.Scratch, 200000+k)
+	defer os.RemoveAll(root)
+	out := e2.Run(sc, root, r.Int63())
+	res := &core.CaseResult{Sig: fmt.Sprintf("closed-loop/%s/%x", kind, core.HashString(fmt.Sprintf("%+v", sc))), Execs: 1}
+	if out.Err != "" {
+		res.Inconcl = "closed loop: " + out.Err
+		return res
+	}
+	res.AddStat("closed_loop_runs", 1)
+	res.AddStat("closed_loop_shards_removed_by_the_coordinator", int64(out.Removals))
+	res.AddSet("closed_loop_idle_settings", sc.Spec.Idle)
+	res.Nontrivial = true
+	for _, v := range out.RemovalViol {
+		res.Violate("C07/closed-loop/removed-before-idle-time/"+kind, "%s", v)
+		break
+	}
+	if len(res.Viol) > 0 {
+		res.Witness = map[string]interface{}{"scenario": sc, "trace": out.Trace}
+	}
+	if k < 1 {
+		res.Sample = map[string]interface{}{"closed_loop_scenario": sc, "removals": out.Removals}
+	}
+	return res
 }
 
 // ---------------------------------------------------------------------------
